@@ -35,6 +35,12 @@ pub fn elem_text(e: &Value, t: &Tables) -> String {
         "set" => format!("{{{}}}", e["items"].as_array().unwrap().iter().map(|x| elem_text(x, t)).collect::<Vec<_>>().join(", ")),
         "wb" => "#".into(),
         "sb" => "$".into(),
+        "struct" => { let inner = e["items"].as_array().unwrap().iter().map(|x| elem_text(x, t)).collect::<Vec<_>>().join(" "); if fm.is_empty() { format!("<{inner}>") } else { format!("<{inner}>:[{fm}]") } }
+        "opt" => {
+            let inner = e["items"].as_array().unwrap().iter().map(|x| elem_text(x, t)).collect::<Vec<_>>().join(" ");
+            let (lo, hi) = (e["id"].as_u64().unwrap(), e["hi"].as_u64().unwrap());
+            if lo == 0 && hi == 1 { format!("({inner})") } else if lo == 0 { format!("({inner}, {hi})") } else { format!("({inner}, {lo}:{hi})") }
+        }
         "syl" => if fm.is_empty() { "%".into() } else { format!("%:[{fm}]") },
         "empty" => "*".into(),
         "met" => "&".into(),
